@@ -842,6 +842,10 @@ class BatchCompletionCallBack(object):
 
         # Schedule the next batch of tasks.
         with self.parallel._lock:
+            if self.parallel._call_id != self.parallel_call_id:
+                # The call this batch belongs to is over (aborted) and a new
+                # one may have started: do not touch its tracking state.
+                return
             self.parallel.n_completed_tasks += self.batch_size
             self.parallel.print_progress()
             if self.parallel._original_iterator is not None:
@@ -1952,6 +1956,10 @@ class Parallel(Logger):
                     )
                 raise RuntimeError(msg)
             self._running = True
+            # Completion callbacks of batches from a previous (aborted) call
+            # compare this id with theirs under the lock: it has to change
+            # before the tracking state below is reset for the new call.
+            self._call_id = uuid4().hex
 
         # Counter to keep track of the task dispatched and completed.
         self.n_dispatched_batches = 0
@@ -2000,7 +2008,6 @@ class Parallel(Logger):
         # concurrently finalizing a task from the previous call to run the
         # callback.
         with self._lock:
-            self._call_id = uuid4().hex
             # Pre-sliced batches that a previous, aborted call did not
             # dispatch must not leak into this call.
             self._ready_batches = queue.Queue()
